@@ -640,6 +640,12 @@ func c13Gen(seed int64, idx int) *c13Chain {
 						addProbe(strings.Repeat("a", int(n.Int64())))
 						addProbe(strings.Repeat("z", int(n.Int64())))
 						addProbe(strings.Repeat("ab", int(n.Int64()))[:int(n.Int64())])
+						// the same number of characters, some of them of several bytes and not at the end
+						if k := int(n.Int64()); k >= 1 {
+							addProbe("é" + strings.Repeat("a", k-1))
+							addProbe(string([]rune(strings.Repeat("日a", k))[:k]))
+							addProbe("😀" + strings.Repeat("z", k-1))
+						}
 					}
 				}
 			}
